@@ -725,7 +725,13 @@ func inflight(r *vh.Run, i int) {
 	full := append(append(append([]byte{}, part1...), part2a...), part2b...)
 	d := vh.DigestOf("sha256", full)
 	pr, pw := io.Pipe()
+	// in some of the trials with more data the request in flight is a PATCH, not the completing PUT: the bytes it
+	// delivers after the session has ended belong to no session, acknowledging them would be "further use"
+	usePatch := !noMore && (i/12)%2 == 1
 	req := httptest.NewRequest("PUT", path+"?state="+state(int64(len(part1)))+"&digest="+d, &pipeBody{r: pr})
+	if usePatch {
+		req = httptest.NewRequest("PATCH", path+"?state="+state(int64(len(part1))), &pipeBody{r: pr})
+	}
 	req.ContentLength = -1
 	done := make(chan int, 1)
 	go func() {
@@ -794,9 +800,16 @@ func inflight(r *vh.Run, i int) {
 		return
 	}
 	r.Count("inflight_trials", 1)
-	r.Distinct("inflight_cells", fmt.Sprintf("%s/%s/more=%v", how, kind, !noMore))
+	r.Distinct("inflight_cells", fmt.Sprintf("%s/%s/more=%v/patch=%v", how, kind, !noMore, usePatch))
 	wit["body_ends_without_more_data"] = noMore
 	wit["put_status"] = st
+	if usePatch {
+		wit["request_in_flight"] = "PATCH"
+		if st >= 200 && st < 300 {
+			r.Violation("ended-session-accepted-data:"+how, fmt.Sprintf("the session was ended (%s) while the body of a PATCH was in flight; %d more bytes arrived afterwards and the PATCH was acknowledged with %d (%s store)", how, len(part2b), st, kind), wit)
+		}
+		return
+	}
 	if st == 201 {
 		r.Violation("ended-session-completed:"+how, fmt.Sprintf("the session was ended (%s) while the body of its PUT was in flight; the PUT was still acknowledged with 201 (%s store, more data after the end: %v)", how, kind, !noMore), wit)
 		return
@@ -858,7 +871,7 @@ func main() {
 	ne := r.N(32, 600)
 	vh.Parallel(np, 16, func(i int) { protocol(r, i) })
 	// timing sensitive families run with less parallelism
-	nf := r.N(36, 900)
+	nf := r.N(48, 960)
 	vh.Parallel(nb+ne+nf, 8, func(i int) {
 		switch {
 		case i < nb:
